@@ -235,6 +235,69 @@ func runC18(c *Check) {
 				}
 			}
 		}
+		// … and no part of it is replaced by something that does not carry the defaults
+		var fromDefaults func(v ssa.Value, depth int) (bool, string)
+		fromDefaults = func(v ssa.Value, depth int) (bool, string) {
+			t := TermOf(v, &Ctx{Fn: lv})
+			if p.DeepContains(t, func(x *Term) bool {
+				return (x.Op == "global" && strings.HasSuffix(x.Name, "DefaultConfig")) || x.Op == "param"
+			}, 1) {
+				return true, "derives from DefaultConfig or a parameter"
+			}
+			if call, isC := v.(*ssa.Call); isC {
+				if cal := call.Common().StaticCallee(); cal != nil && p.InRepo(cal) && fnPkg(cal).Pkg.Path() == configPkg && len(cal.Params) == 0 {
+					return true, "built by the parameterless constructor " + fnShort(cal) + " (a constant value of the package, like DefaultConfig's own)"
+				}
+			}
+			if al, isA := v.(*ssa.Alloc); isA && depth < 2 {
+				n := 0
+				for _, r := range *al.Referrers() {
+					if st, isS := r.(*ssa.Store); isS && st.Addr == ssa.Value(al) {
+						n++
+						if okv, _ := fromDefaults(st.Val, depth+1); !okv {
+							return false, "a new value filled with " + trunc(TermOf(st.Val, &Ctx{Fn: lv}).String(), 60)
+						}
+					}
+				}
+				if n > 0 {
+					return true, "a copy of a default value"
+				}
+				return false, "a new zero value"
+			}
+			return false, trunc(t.String(), 80)
+		}
+		for _, b := range lv.Blocks {
+			for _, in := range b.Instrs {
+				st, isS := in.(*ssa.Store)
+				if !isS {
+					continue
+				}
+				fa, isF := st.Addr.(*ssa.FieldAddr)
+				if !isF {
+					continue
+				}
+				root := ssa.Value(fa)
+				path := ""
+				for {
+					f, isFA := root.(*ssa.FieldAddr)
+					if !isFA {
+						break
+					}
+					path = "." + fieldLabel(f.X.Type(), f.Field) + path
+					root = f.X
+				}
+				al, isA := root.(*ssa.Alloc)
+				if !isA || !strings.HasSuffix(al.Type().String(), "config.Config") {
+					continue
+				}
+				inst := "decode-target ⟂ cfg" + path + " keeps-defaults"
+				if okv, why := fromDefaults(st.Val, 0); okv {
+					c.OK("C18-R3", inst, fnName(lv), p.InstrPos(in), "the value written "+why, true)
+				} else {
+					c.Bad("C18-R3", inst, fnName(lv), p.InstrPos(in), "a part of the decode target is replaced by "+why+", which does not carry the defaults: options of that part that neither the file nor a flag sets get the zero value instead of their default", nil)
+				}
+			}
+		}
 		if ok {
 			c.OK("C18-R3", "decode-target ⟂ starts-from-DefaultConfig", fnName(lv), p.Pos(lv.Pos()), "options absent from file and flags keep their defaults", true)
 		} else {
